@@ -65,6 +65,7 @@ const sweepRuleTail = " Patterns: every AST with at most N nodes over 19 atoms, 
 
 func init() {
 	registry["C18"] = mx.SimdPlan
+	registry["C07"] = mx.TotalPlan
 	registry["C08"] = bx.C08Plan
 	registry["C09"] = bx.C09Plan
 	registry["C16"] = px.Plan
